@@ -624,7 +624,7 @@ class Interp:
                 return {k: None for k in self.p.model_fields(v) if not k.startswith("_")}
             raise PyRaise("AttributeError", node, f"type object '{v.name}' has no attribute '{name}'")
         if isinstance(v, AArr):
-            return self.arr_attr(v, name, node)
+            return self.guard_kwargs(self.arr_attr(v, name, node), "ndarray." + name)
         if isinstance(v, SymScalar):
             if name in ("shape",):
                 return ()
@@ -687,7 +687,7 @@ class Interp:
             if name == "tolist":
                 return lambda: list(v.positions)
             if name in ("all", "any") and isinstance(v, NP.IdxArr) and all(isinstance(x, bool) for x in v.positions):
-                return lambda axis=None, **k: (all if name == "all" else any)(v.positions)
+                return lambda axis=None, **k: (all if name == "all" else any)(v.positions) if axis in (None, 0, -1) else (_ for _ in ()).throw(AnalysisAbort("axis of a vector"))
             if name in ("sum",) and isinstance(v, NP.IdxArr) and all(isinstance(x, bool) for x in v.positions):
                 return lambda axis=None, **k: TInt(sum(v.positions))
             raise AnalysisAbort(f"index array attribute {name}")
@@ -767,7 +767,7 @@ class Interp:
         if name in ("max", "min"):
             return lambda axis=None: NP.reduce_all(a, name) if axis is None else (_ for _ in ()).throw(AnalysisAbort("axis max"))
         if name in ("any", "all"):
-            return lambda axis=None, **k: NP.reduce_all(a, name)
+            return lambda axis=None, **k: NP.reduce_all(a, name) if axis is None else (_ for _ in ()).throw(AnalysisAbort(f"ndarray.{name} with axis"))
         if name == "squeeze":
             def sq(axis=None):
                 if any(x == NP.ONE for x in a.axes):
@@ -783,13 +783,37 @@ class Interp:
             return a
         return NP.reduce_axis(a, axis)
 
+    # keyword arguments that change what a NumPy function computes: a model may use them only if it declares that it implements them
+    RISKY_KW = ("keepdims", "where", "out", "order", "initial", "axes", "axis", "ddof", "side", "mode")
+    HANDLED_KW = {
+        "out": ("minimum", "maximum", "abs", "absolute", "sign", "sqrt", "exp", "log", "negative", "add", "subtract", "multiply", "divide", "true_divide", "power",
+                "reciprocal", "square", "less", "less_equal", "greater", "greater_equal", "equal", "not_equal", "positive"),
+        "where": ("add", "subtract", "multiply", "divide", "true_divide", "power", "negative", "square", "reciprocal", "positive", "less", "less_equal", "greater",
+                  "greater_equal", "equal", "not_equal", "copyto"),
+        "order": ("ravel", "flatten", "reshape", "unravel_index", "copy"),
+        "axis": ("sum", "cumsum", "max", "min", "amax", "amin", "nanmax", "nanmin", "any", "all", "expand_dims", "moveaxis", "diff", "take", "flip", "gradient",
+                 "concatenate", "stack", "squeeze", "argmax", "argmin", "mean", "prod", "count_nonzero", "diagonal", "swapaxes", "apply_along_axis", "cumprod", "tile", "repeat", "insert", "delete"),
+    }
+
+    def guard_kwargs(self, f, what):
+        if not callable(f) or isinstance(f, (BT, Marker, PyModel)):
+            return f
+        short = what.split(".")[-1]
+
+        def guarded(*a, **k):
+            bad = sorted(x for x in k if x in self.RISKY_KW and short not in self.HANDLED_KW.get(x, ()))
+            if bad:
+                raise AnalysisAbort(f"{what}: keyword(s) {bad} are not modelled")
+            return f(*a, **k)
+        return guarded
+
     # ================================================================ external modules
     def ext_attr(self, m: ExtModule, name, node):
         full = f"{m.name}.{name}"
         if full in self.hooks:
             return self.hooks[full]
         if m.name == "numpy":
-            return self.np_attr(name, node)
+            return self.guard_kwargs(self.np_attr(name, node), "np." + name)
         if m.name == "logging":
             if name in ("debug", "info", "warning", "error", "critical"):
                 def rec(msg="", *a, _lvl=name, **k):
@@ -1032,6 +1056,10 @@ class Interp:
             return cnz
         if name in ("any", "all"):
             def anyall(a, axis=None, _n=name):
+                if axis is not None:
+                    raise AnalysisAbort(f"np.{_n} with axis")
+                if isinstance(a, NP.IdxArr):
+                    a = list(a.positions)
                 if isinstance(a, (list, tuple)) and all(isinstance(x, (bool, int)) for x in a):
                     return any(a) if _n == "any" else all(a)
                 return NP.reduce_all(a, _n)
